@@ -1,6 +1,7 @@
 import LocustModel.Proto
 import LocustModel.Disk.Routing
 import LocustModel.Disk.DiskProto
+import LocustModel.Disk.ReadState
 /-
   Driver for C15.  One input line → `<model> TAB <spec>`.
 
@@ -21,6 +22,12 @@ import LocustModel.Disk.DiskProto
     dirclash <t1> <id>:<key>,… <t2>       model = `clash` if the directory of table t2 is also a file of table t1, else `ok`;
                                           implementation = `clash` if flushing t2 after t1 fails; spec = `ok`
                                           (witness of the fixed finding C15-empty-table-name, kept in the corpus)
+    reads <id> <key>|<last>|<col,…>;… <written cols> <ops> :: <impl>
+                                          files of ONE partition in catalogue order (key, last_column, the column names the
+                                          file holds on disk), the names written, ops `g<name>` (SELECT that column) | `E`
+                                          (`evict_cache`); impl/model = per op `f<k>` (the stored values came back) | `a<k>` (all
+                                          NULL) with k = files opened by that query (`QueryStats.files_opened`) | `E`;
+                                          model = `runOps` of `Disk/ReadState.lean` from a fresh state; spec judges f/a only.
     echo <text>                           model = `?`, spec = text (API-level oracle computed by the harness)
 -/
 namespace LM.DrvC15
@@ -72,8 +79,87 @@ def parseParts (s : String) : Option (List (Nat × Name)) :=
                       | [i, k] => do pure ((← i.toNat?), (← parseName? k))
                       | _ => none) s
 
-def step (line : String) : String :=
+def parseFile (s : String) : Option (SubMeta × List (Col Unit)) :=
+  match s.splitOn "|" with
+  | [k, l, cs] => do
+      let key ← parseName? k
+      let last ← parseName? l
+      let names ← parseNameList? cs
+      pure ({ key := key, sizeBytes := 0, lastColumn := last }, names.map fun n => ⟨n, 0, ()⟩)
+  | _ => none
+
+def parseROp (s : String) : Option ROp :=
+  match s.toList with
+  | ['E'] => some .evictAll
+  | 'g' :: rest => (parseName? (String.ofList rest)).map .get
+  | _ => none
+
+/-- Run the read-side machine op by op, reporting for every `get` whether a column came back and how many files
+    the step loaded (the `loaded` list grows by one entry per load). -/
+def readsModel (fs : Files Unit) (id : Nat) (metas : List SubMeta) : RState Unit → List ROp → List String
+  | _, [] => []
+  | st, .get name :: rest =>
+    match getCol fs id metas st name with
+    | .error f => ["panic:" ++ toString f]
+    | .ok (r, st') =>
+      ((if r.isSome then "f" else "a") ++ toString (st'.loaded.length - st.loaded.length)) :: readsModel fs id metas st' rest
+  | st, .evict name :: rest => "e" :: readsModel fs id metas (evict st name) rest
+  | st, .evictAll :: rest => "E" :: readsModel fs id metas (evictAll st) rest
+
+def readsSpec (written : List Name) (ops : List ROp) (impl : String) : String :=
+  let outs := if impl = "[]" then [] else impl.splitOn ","
+  if outs.length ≠ ops.length then "BAD number of answers"
+  else
+    match (ops.zip outs).find? (fun (op, o) =>
+        match op with
+        | .get name => (o.take 1).toString ≠ (if written.contains name then "f" else "a")
+        | _ => false) with
+    | some (.get name, o) =>
+      if written.contains name then s!"BAD stored column {showName name} read back as {o}"
+      else s!"BAD absent column {showName name} answered {o}"
+    | _ => "OK"
+
+def splitImpl (line : String) : String × String :=
+  match line.trimAscii.toString.splitOn " :: " with
+  | [a] => (a, "")
+  | a :: rest => (a, " :: ".intercalate rest)
+  | [] => ("", "")
+
+/-- Classifier of the open finding `C15-colname-leading-quote` (SQL parser strips the first and last character of a
+    column name that begins with a quote character): at least one answer to a `SELECT` of a name that begins with a
+    backtick (0x60) or a double quote (0x22) differs from the model, and every OTHER differing answer agrees with the
+    model on found / absent and differs only in the number of files opened (the mangled name made the database load
+    a different file earlier, which shifts later file-open counts). -/
+def quoteLeadOnly (ops : List ROp) (model : List String) (impl : String) : Bool :=
+  let outs := if impl = "[]" then [] else impl.splitOn ","
+  if outs.length ≠ ops.length ∨ model.length ≠ ops.length then false
+  else
+    let diffs := ((ops.zip model).zip outs).filter fun ((_, m), o) => m ≠ o
+    let quoteLead : ROp → Bool
+      | .get (c :: _) => c == 0x60 || c == 0x22
+      | _ => false
+    diffs.any (fun ((op, _), _) => quoteLead op) &&
+      diffs.all fun ((op, m), o) => quoteLead op || (m.take 1).toString == (o.take 1).toString
+
+def stepReads (toks : List String) (impl : String) : String :=
+  match toks with
+  | [id, files, written, ops] =>
+    match id.toNat?, (if files = "[]" then some [] else (files.splitOn ";").mapM parseFile), parseNameList? written,
+        parseList parseROp ops with
+    | some id, some fl, some written, some ops =>
+      let metas := fl.map (·.1)
+      let fs := writeSubpartitions ([] : Files Unit) id metas (fl.map (·.2))
+      let model := readsModel fs id metas RState.init ops
+      showList id' model ++ "\t" ++ readsSpec written ops impl ++
+        (if quoteLeadOnly ops model impl then "\tC15-colname-leading-quote" else "")
+    | _, _, _, _ => "bad-op\tbad-op"
+  | _ => "bad-op\tbad-op"
+where id' (s : String) : String := s
+
+def step (line0 : String) : String :=
+  let (line, impl) := splitImpl line0
   match splitTokens line with
+  | "reads" :: rest => stepReads rest impl
   | "sub" :: rest =>
       match parseSub rest with
       | some (max, U, cols, qs) =>
